@@ -1065,7 +1065,7 @@ pub fn run(tier: Tier, replay: Option<&str>) {
     };
     (0..=0xFFFFu64).into_par_iter().for_each(|x| text(0, x));
     text_n.fetch_add(65536, Ordering::Relaxed);
-    let n24: u64 = if th { 1 << 24 } else { 1 << 16 };
+    let n24: u64 = if th { 1 << 24 } else { 1 << 22 };
     (0..n24).into_par_iter().for_each(|x| {
         let v = if th { x } else { (x * 251) & 0xFF_FFFF };
         text(1, v);
@@ -1076,7 +1076,7 @@ pub fn run(tier: Tier, replay: Option<&str>) {
     for x in [0x0100_0000u64, 0xFFFF_FFFF, 0x8000_0001] {
         text(1, x & 0xFF_FFFF);
     }
-    let n32: u64 = if th { 1 << 32 } else { 1 << 18 };
+    let n32: u64 = if th { 1 << 32 } else { 1 << 27 };
     (0..n32 >> 12).into_par_iter().for_each(|blk| {
         for k in 0..(1u64 << 12) {
             let x = (blk << 12) | k;
